@@ -122,6 +122,9 @@ pub struct TSim {
   driver_cv: Condvar,
   pub shared: Arc<Shared>,
   n_threads: usize,
+  /// pool workers take ready tasks in wake order (a one-worker FIFO pool)
+  /// instead of letting the schedule pick any ready task
+  pub fifo_tasks: std::sync::atomic::AtomicBool,
 }
 
 #[derive(Debug, Default, Clone)]
@@ -208,6 +211,7 @@ impl TSim {
       driver_cv: Condvar::new(),
       shared,
       n_threads: n,
+      fifo_tasks: std::sync::atomic::AtomicBool::new(false),
     })
   }
 
@@ -513,7 +517,7 @@ impl TSim {
       }
       let n = st.ready.len();
       let opts: Vec<usize> = (0..n).collect();
-      let k = if n == 1 { 0 } else { self.decide(&mut st, &opts, None, false) };
+      let k = if n == 1 || self.fifo_tasks.load(SeqCst) { 0 } else { self.decide(&mut st, &opts, None, false) };
       let id = st.ready.remove(k).unwrap();
       st.slots[id].queued = false;
       let Some(fut) = st.slots[id].fut.take() else {
